@@ -266,7 +266,13 @@ func registerModels(e *Engine) {
 	for _, n := range []string{"Printlnf", "Println", "Defaultf", "Default", "Infof", "Info", "Debugf", "Debug", "Successf", "Success",
 		"Errorf", "Error", "Warningf", "Warning", "Secondaryf", "Secondary", "Questionf", "Question"} {
 		e.reg("(*"+repoMod+"/log.Log)."+n, func(in *Interp, fr *frame, fn *ssa.Function, a []Val) Val {
-			in.yieldPoint(fr, "log")
+			key := "log"
+			if len(a) > 1 {
+				if m, ok := a[1].(Str); ok && m.B == nil {
+					key = "log:" + m.S
+				}
+			}
+			in.yieldPoint(fr, key)
 			return nil
 		})
 	}
